@@ -393,6 +393,7 @@ class _Run:
 
 
 class StreamSim(Simulator):
+    crash_rule = "C10.S1"
     name = "streamsim"
     property_id = "C10"
     level = "fault_enumeration"
